@@ -269,5 +269,95 @@ def r05_5(ctx):
     return r
 
 
+CMP = "srtp::constant_time_eq"
+
+
+def _views(b, t, depth=0):
+    """which parameter(s) a term is a view of, and what kind of view: -> set of (param, kind),
+    kind in whole / chunks / remainder / partial"""
+    out = set()
+    if depth > 8:
+        return out
+    k = t[0]
+    if k == "arg":
+        return {(t[1], "whole")}
+    if k == "var" and len(t) > 2:
+        for d in b.var_def_terms(t[2]):
+            out |= _views(b, d, depth + 1)
+        return out
+    if k == "call":
+        last = t[1].split("::")[-1]
+        inner = set()
+        for a in t[2]:
+            inner |= _views(b, a, depth + 1)
+        if last in ("iter", "into_iter", "as_ref", "deref", "as_slice", "by_ref", "borrow", "borrow_mut", "clone", "copied", "cloned"):
+            return inner
+        if last in ("chunks_exact", "chunks"):
+            return {(p, "chunks" if kind == "whole" else "partial") for p, kind in inner}
+        if last == "remainder":
+            return {(p, "remainder" if kind == "chunks" else "partial") for p, kind in inner}
+        return {(p, "partial") for p, kind in inner}
+    if k in ("index", "field", "cast", "un", "deref", "ref"):
+        for x in t[1:]:
+            if isinstance(x, tuple):
+                out |= {(p, "partial" if k == "index" else kind) for p, kind in _views(b, x, depth + 1)}
+        return out
+    for x in t[1:]:
+        if isinstance(x, tuple) and x and isinstance(x[0], str):
+            out |= _views(b, x, depth + 1)
+    return out
+
+
+def r05_6(ctx):
+    """the tag comparison itself. `constant_time_eq(a, b)` is the authentication decision of the HMAC profiles:
+    it must compare every byte of `a` with the byte of `b` at the same position. Shape: unequal lengths give false;
+    every pairing (`zip`) pairs a view of `a` with the same kind of view of `b`; and the views together cover the
+    slices - the whole slice, or chunks_exact AND its remainder. (A tail compared with itself accepts a forged
+    tag whose last len % 4 bytes are wrong.)"""
+    r = RuleResult("R05.6", "K6", "the tag comparator pairs every byte of one operand with the same byte of the other")
+    b = ctx.body(CMP)
+    r.scope.append(CMP)
+    params = [b.locals[i].get("n") for i in (1, 2)]
+    # (1) length test
+    lens = [bi for bi in range(len(b.blocks)) if b.blocks[bi]["t"]["k"] == "switch" and bi not in b.cleanup
+            and (lambda t: t[0] == "bin" and t[1] in ("Ne", "Eq") and all(x[0] == "call" and x[1].endswith("::len") for x in (t[2], t[3]))
+                 and {mir.show(t[2][2][0], 20), mir.show(t[3][2][0], 20)} == set(params))(b.switch_info(bi)[0])]
+    if lens:
+        r.ok({"length test": b.where(lens[0])})
+    else:
+        r.violate(CMP, "cmp:length", b.where(0), "operands of different length are not rejected before the bytewise comparison (zip stops at the shorter one)")
+    # (2) pairings
+    zips = [(bi, t) for bi, t, p in b.calls() if p and p.endswith("Iterator::zip") and bi not in b.cleanup]
+    if not zips:
+        raise core.CheckerError("R05.6: comparator has no zip pairing - shape not recognised (index loops are not modelled)")
+    kinds = set()
+    for bi, t in zips:
+        va = _views(b, b.term_operand(t["a"][0]))
+        vb = _views(b, b.term_operand(t["a"][1]))
+        pa, pb = {p for p, _ in va}, {p for p, _ in vb}
+        ka, kb = {k for _, k in va}, {k for _, k in vb}
+        if len(pa) == 1 and len(pb) == 1 and pa != pb and pa | pb == set(params) and ka == kb and len(ka) == 1 and "partial" not in ka:
+            kinds |= ka
+            r.ok({"pairing": b.where(bi), "views": "%s of %s with %s of %s" % (sorted(ka)[0], sorted(pa)[0], sorted(kb)[0], sorted(pb)[0])})
+        else:
+            r.violate(CMP, "cmp:pairing", b.where(bi),
+                      "this pairing compares %s with %s: not a view of `%s` against the same view of `%s` - those bytes of the received tag are never checked"
+                      % (sorted(va) or "?", sorted(vb) or "?", params[0], params[1]))
+    # (3) coverage
+    if not r.violations:
+        if "whole" in kinds or {"chunks", "remainder"} <= kinds:
+            r.ok({"coverage": sorted(kinds)})
+        else:
+            r.violate(CMP, "cmp:coverage", b.where(zips[0][0]), "the pairings cover only %s of the operands: some bytes of the tag are never compared" % sorted(kinds))
+    # (4) the verdict is `accumulated difference == 0`
+    rets = b.var_def_terms(0)
+    if any(t[0] == "bin" and t[1] == "Eq" and mir.int_value(t[3]) == 0 for t in rets) and all(
+            (t[0] == "bin" and t[1] == "Eq") or mir.int_value(t) == 0 for t in rets):
+        r.ok({"verdict": "false, or accumulated difference == 0"})
+    else:
+        r.violate(CMP, "cmp:verdict", b.where(0), "the comparator can return true other than through `difference == 0`: %s" % [mir.show(t, 60) for t in rets])
+    return r
+
+
 def run(ctx):
-    return [r05_1(ctx), r05_2(ctx), r05_3(ctx), r05_4(ctx), r05_5(ctx)]
+    return [r05_1(ctx), r05_2(ctx), r05_3(ctx), r05_4(ctx), r05_5(ctx), r05_6(ctx)]
